@@ -471,6 +471,24 @@ theorem batchLoop_closed (hc : Closed P) (inj : BSt → Nat → BSt) (hinj : ∀
       · exact h2
       · exact batchLoop_closed hc inj hinj fuel _ (hinj _ 4 h2)
 
+theorem flushGate_closed (hc : ClosedH P) (inj : BSt → Nat → BSt) (hinj : ∀ s site, P s → P (inj s site))
+    (s : BSt) (n : Nat) (h : P s) : P (flushGate inj s n) := by
+  unfold flushGate
+  split
+  · exact hc.frame _ _ h (flushSinks_frame _)
+  · dsimp only
+    split
+    · have h1 : P { inj s 7 with lastFlush := (inj s 7).now } := hc.frame _ _ (hinj _ 7 h)
+        (Frame.of_eq rfl rfl rfl rfl rfl rfl rfl rfl rfl rfl rfl rfl rfl (fun _ hf => hf))
+      exact hc.frame _ _ h1 (flushSinks_frame _)
+    · exact hinj _ 7 h
+
+theorem preEraseFlush_closed (hc : ClosedH P) (s : BSt) (h : P s) : P (preEraseFlush s) := by
+  unfold preEraseFlush
+  split
+  · exact hc.frame _ _ h (flushSinks_frame _)
+  · exact h
+
 theorem poll_closed (hc : Closed P) (inj : BSt → Nat → BSt) (hinj : ∀ s site, P s → P (inj s site))
     (s : BSt) (h : P s) : P (poll inj s) := by
   unfold poll
@@ -482,10 +500,11 @@ theorem poll_closed (hc : Closed P) (inj : BSt → Nat → BSt) (hinj : ∀ s si
   · split
     · exact processLowest_closed hc inj hinj _ h1
     · exact batchLoop_closed hc inj hinj _ _ h1
-  · have h3 := checkFailures_closed hc inj hinj _ (hc.frame _ _ (hinj _ 5 h1) (flushSinks_frame _))
+  · have h3 := checkFailures_closed hc inj hinj _ (flushGate_closed hc.toClosedH inj hinj _ (inj s1 5).cfg.flushInterval (hinj _ 5 h1))
     have h4 := allEmpty_closed hc.toClosedH _ h3
     split
-    · exact cleanupLoggers_closed hc.toClosedH inj hinj _ (cleanupContexts_closed hc.toClosedH _ h4)
+    · exact cleanupLoggers_closed hc.toClosedH inj hinj _ (preEraseFlush_closed hc.toClosedH _
+        (cleanupContexts_closed hc.toClosedH _ h4))
     · exact h4
 
 theorem exitLoop_closed (hc : Closed P) (inj : BSt → Nat → BSt) (hinj : ∀ s site, P s → P (inj s site))
@@ -496,8 +515,9 @@ theorem exitLoop_closed (hc : Closed P) (inj : BSt → Nat → BSt) (hinj : ∀ 
     dsimp only
     have h1 := allEmpty_closed hc.toClosedH s h
     split
-    · exact cleanupLoggers_closed hc.toClosedH inj hinj _ (cleanupContexts_closed hc.toClosedH _
-        (hc.frame _ _ (checkFailures_closed hc inj hinj _ h1) (flushSinks_frame _)))
+    · exact cleanupLoggers_closed hc.toClosedH inj hinj _ (preEraseFlush_closed hc.toClosedH _
+        (cleanupContexts_closed hc.toClosedH _
+          (hc.frame _ _ (checkFailures_closed hc inj hinj _ h1) (flushSinks_frame _))))
     · have h0 : P { (allEmpty s).1 with now := (allEmpty s).1.now + tick } :=
         hc.frame _ _ h1 (Frame.of_eq rfl rfl rfl rfl rfl rfl rfl rfl rfl rfl rfl rfl rfl (fun _ h => h))
       have h2 := populate_closed hc inj hinj _ h0
